@@ -105,13 +105,25 @@ class WSGIWrapper:
 
         response_body = self.app(environ, start_response)
 
-        if not response_started:
-            raise RuntimeError("WSGI app did not call start_response")
+        # PEP 3333 allows start_response to be called as late as the
+        # first iteration (e.g. generator apps), so check after that.
+        start_sent = False
 
-        send({"type": "http.response.start", "status": status_code, "headers": headers})
+        def send_start() -> None:
+            nonlocal start_sent
+
+            if not response_started:
+                raise RuntimeError("WSGI app did not call start_response")
+            send({"type": "http.response.start", "status": status_code, "headers": headers})
+            start_sent = True
+
         try:
             for output in response_body:
+                if not start_sent:
+                    send_start()
                 send({"type": "http.response.body", "body": output, "more_body": True})
+            if not start_sent:
+                send_start()
         finally:
             if hasattr(response_body, "close"):
                 response_body.close()
